@@ -82,6 +82,8 @@ impl Handle {
 
         self.register(cx.waker());
 
+        verif_failpoint!("atomic_waker.poll_close.after_register");
+
         if !self.is_open() {
             Poll::Ready(())
         } else {
@@ -114,6 +116,9 @@ impl Drop for Handle {
         unsafe {
             (*self.is_open).store(false, Ordering::Release);
         }
+
+        verif_failpoint!("atomic_waker.drop.after_close");
+
         self.wake();
     }
 }
